@@ -10,13 +10,13 @@ from . import common as cm
 ID = "C04"
 LEVEL = "model_checking"
 RULE = ("every well-posed network (exact decision per class) of the listed levels with at least one source x every "
-        "orientation (branch ids ascending with the listing position for even-parity orientation masks, descending for odd) x every reference node x palette; for each: every scale factor in {2,-1,j,1/2+j,1e-3}, every subset "
+        "orientation (branch ids ascending with the listing position for even-parity orientation masks, descending for odd) x every reference node x palette; for each: every scale factor in {2,-1,j,1/2+j,1e-3,4e9}, every subset "
         "of the source set kept active through the library's own zeroing operations with keep lists (all 2^k subsets, "
         "k<=4), and the all-off network; states = distinct networks judged, transitions = library solves judged; "
         "non-trivial = network with a non-zero solution")
 ASSUMPTIONS = ["numpy.linalg accuracy on the palettes", "the exact model is used only for the domain decision and the natural scale"]
 EXPLANATION = "two-run relations on the real solver and the real source-zeroing transformers"
-SCALES = [2, -1, 1j, 0.5 + 1j, 1e-3]
+SCALES = [2, -1, 1j, 0.5 + 1j, 1e-3, 4e9]
 
 
 def budget_s(tier):
@@ -25,17 +25,17 @@ def budget_s(tier):
 
 LEVELS_QUICK = [
     (2, 1, cm.KINDS7, ("real", "cplx"), ("plain", "odd")),
-    (2, 2, cm.KINDS7, ("real", "cplx", "eq"), ("plain", "odd")),
+    (2, 2, cm.KINDS7, ("real", "cplx", "eq", "small", "mixed"), ("plain", "odd")),
     (2, 3, cm.KINDS7, ("cplx", "eq"), ("plain",)),
-    (3, 2, cm.KINDS7, ("real", "cplx", "eq"), ("plain", "odd")),
+    (3, 2, cm.KINDS7, ("real", "cplx", "eq", "small", "mixed"), ("plain", "odd")),
     (3, 3, cm.KINDS7, ("cplx", "eq"), ("odd",)),
     (3, 4, cm.KINDS4, ("real",), ("plain",)),
 ]
 LEVELS_THOROUGH = [
     (2, 1, cm.KINDS7, ("real", "cplx", "dec"), ("plain", "odd")),
-    (2, 2, cm.KINDS7, ("real", "cplx", "dec", "eq"), ("plain", "odd")),
-    (2, 3, cm.KINDS7, ("real", "cplx", "dec", "eq"), ("plain", "odd")),
-    (3, 2, cm.KINDS7, ("real", "cplx", "dec", "eq"), ("plain", "odd")),
+    (2, 2, cm.KINDS7, ("real", "cplx", "dec", "eq", "small", "mixed"), ("plain", "odd")),
+    (2, 3, cm.KINDS7, ("real", "cplx", "dec", "eq", "small", "mixed"), ("plain", "odd")),
+    (3, 2, cm.KINDS7, ("real", "cplx", "dec", "eq", "small", "mixed"), ("plain", "odd")),
     (3, 3, cm.KINDS7, ("real", "cplx", "eq"), ("plain", "odd")),
     (3, 4, cm.KINDS7, ("cplx",), ("plain",)),
     (4, 3, cm.KINDS7, ("real",), ("odd",)),
